@@ -63,6 +63,9 @@ class Attribute:
         self._converter = converter  # to convert value
         self.parent_eflr = parent_eflr
 
+        #: parts ('value', 'units') last filled in by the library from data - as opposed to assigned by the user
+        self._derived_parts: set = set()
+
         self._unit_checker = Unit.make_converter("units", soft=True, allow_none=True)
 
     @staticmethod
@@ -98,6 +101,7 @@ class Attribute:
         """Set a new value of the attribute. Use the provided converter (if any) to transform/validate the value."""
 
         self._value = self.convert_value(val)
+        self._derived_parts.discard('value')  # (after the assignment: an interrupted assignment counts as not made)
 
     @property
     def representation_code(self) -> Union[RepresentationCode, None]:
@@ -154,6 +158,24 @@ class Attribute:
             raise RuntimeError(f"Units of {self.__class__.__name__} cannot be set")
 
         self._units = self._unit_checker(units)  # the checker also turns a Unit member into its symbol
+        self._derived_parts.discard('units')
+
+    def set_derived(self, key: str, value: Any) -> None:
+        """Fill in a part ('value' or 'units') of the attribute from data.
+
+        A part filled in this way is replaced by the next derivation (see forget_derived) unless the user assigns it.
+        """
+
+        converted = self.convert_value(value) if key == 'value' else self._unit_checker(value)
+        self._derived_parts.add(key)  # (flagged first: an interruption in between leaves an empty, still derivable part)
+        setattr(self, '_' + key, converted)
+
+    def forget_derived(self) -> None:
+        """Empty the parts which were filled in from data (and not assigned by the user since)."""
+
+        for key in tuple(self._derived_parts):
+            setattr(self, '_' + key, None)
+            self._derived_parts.discard(key)
 
     @property
     def count(self) -> Union[int, None]:
